@@ -49,7 +49,7 @@ func init() {
 		histOrAudit(h, histCfg{prop: "C01", strictBias: 30, withOCSP: true, faulty: true, histLen: 6}, "C01.")
 	}})
 	register(&PropDef{ID: "C10", Plan: func(t string) Plan {
-		p := histPlan(t, histRule+"; the first 42 (thorough: 400) runs are concurrent-strictness scenarios: 2-5 overlapping strict handshakes for one distribution point while its origin fails or stalls or the store cannot switch to the delivered list (7 failure kinds x backend x fetch mode), then while the first good delivery is slow, under seeded preemption")
+		p := histPlan(t, histRule+"; the first 48 (thorough: 400) runs are concurrent-strictness scenarios: 2-5 overlapping strict handshakes for one distribution point while its origin fails or stalls or the store cannot switch to the delivered list (8 failure kinds, the last two being a store switch that fails and a staged database that cannot be moved into place, x backend x fetch mode), then while the first good delivery is slow, under seeded preemption")
 		p.Runs += strictConcRuns(t)
 		p.Enumerated = strictConcRuns(t) // they come first and are never cut by the wall-clock budget
 		return p
